@@ -70,7 +70,7 @@ def run(pid, tier, seed, runs, exes, wdir, rdir, env, ncpu):
                 else:
                     kv[k] = int(v)
             out["nontrivial"] += kv.get("nontrivial", 0)
-            for k in ("inputs", "handlers", "errors", "overruns", "flushes", "direct"):
+            for k in ("inputs", "handlers", "errors", "overruns", "flushes", "direct", "nocallbacks"):
                 lk = "corpus-%s-%s" % (j["bin"], k)
                 out["labels"][lk] = out["labels"].get(lk, 0) + kv.get(k, 0)
         for art in glob.glob(j["prefix"] + "*"):
